@@ -327,7 +327,7 @@ func init() {
 	// ------------------------------------------------------------------ C19
 	register(&Prop{
 		ID: "C19", Level: "exploration", QuickS: 20, ThoroughS: 300,
-		Rule: "seeded server configurations with 0-5 session middlewares (each adds a distinct context value, any one may fail), optional terminate hook (succeeding or failing), with and without authentication, and command histories (simple and extended, errors, Terminate followed by more bytes); every middleware, parser and statement callback records the context it receives (middleware values, client and server parameters, remote address, type map, liveness, whether the previous command's context has been cancelled); judged by the event-order monitor plus the reference model (which predicts the middleware and terminate-hook events); non-trivial = at least one middleware is registered and at least one command callback ran, or a middleware failed, or a Terminate was sent; distinct = distinct case content hashes",
+		Rule:       "seeded server configurations with 0-5 session middlewares (each adds a distinct context value, any one may fail), optional terminate hook (succeeding or failing), with and without authentication, and command histories (simple and extended, errors, Terminate followed by more bytes); every middleware, parser and statement callback records the context it receives (middleware values, client and server parameters, remote address, type map, liveness, whether the previous command's context has been cancelled); judged by the event-order monitor plus the reference model (which predicts the middleware and terminate-hook events); non-trivial = at least one middleware is registered and at least one command callback ran, or a middleware failed, or a Terminate was sent; distinct = distinct case content hashes",
 		Components: e1Components, Assumptions: commonAssumptions,
 		Gen: func(r *Rand, tier string) *Case {
 			c := &Case{Server: ServerCfg{Limit: smallLimit(r)}}
@@ -377,8 +377,8 @@ func init() {
 	// ------------------------------------------------------------------ C12
 	register(&Prop{
 		ID: "C12", Level: "exploration", QuickS: 25, ThoroughS: 420, Race: true,
-		Rule: "seeded startup negotiations: startup packets with 1-8 key/value pairs (duplicates, empty values, an empty key in the middle, missing final terminator, missing value), configured global parameter maps (nil, empty, custom keys) and version strings, with and without authentication, CancelRequest as first packet / after an SSLRequest was declined; callbacks read ClientParameters, ServerParameters and AuthenticatedUsername back; E2 share: 2-5 connections of different users connect concurrently to one server sharing one user-supplied map, under seeded schedules and (race shard) under the -race build with the HB-transparent scheduler; non-trivial = a session was established and at least one callback read the parameters back, or a cancel/malformed packet was refused; distinct = distinct case content hashes",
-		Components: append(append([]string{}, e1Components...), "E2 share: seeded scheduler interleaves the connecting users; race shard: -race build, kernel synchronisation hidden from the detector"),
+		Rule:        "seeded startup negotiations: startup packets with 1-8 key/value pairs (duplicates, empty values, an empty key in the middle, missing final terminator, missing value), configured global parameter maps (nil, empty, custom keys) and version strings, with and without authentication, CancelRequest as first packet / after an SSLRequest was declined; callbacks read ClientParameters, ServerParameters and AuthenticatedUsername back; E2 share: 2-5 connections of different users connect concurrently to one server sharing one user-supplied map, under seeded schedules and (race shard) under the -race build with the HB-transparent scheduler; non-trivial = a session was established and at least one callback read the parameters back, or a cancel/malformed packet was refused; distinct = distinct case content hashes",
+		Components:  append(append([]string{}, e1Components...), "E2 share: seeded scheduler interleaves the connecting users; race shard: -race build, kernel synchronisation hidden from the detector"),
 		Assumptions: commonAssumptions,
 		Gen:         genC12,
 		RaceGen: func(r *Rand, tier string) *Case {
